@@ -57,6 +57,9 @@ NEUTRAL = ["default_language", "sms_keyword", "clean_text_values", "allow_choice
 UNKNOWN_COLS = ["foo", "instance_id", "my col", "Comment", "x-y", "notes"]
 ROOT_NAMES = ["data", "root1", "Form", "my-form", "x.y", "_r", "survey1", "généré", "D"]
 BAD_NAMES = ["1a", "a b", "$x", "-x", "a$b"]
+# root names with a prefix: declared (accepted), reserved for declarations, undeclared (both rejected by the XML pass)
+PREFIXED_ROOT_NAMES = ["jr:r", "odk:Root", "xmlns:r", "und:r", "p2:r"]
+ROOT_DECL_PREFIXES = ["p2", "q9"]
 STD_PREFIXES = ["jr", "orx", "odk", "ev", "xsd", "h"]
 NS_PREFIXES = ["foo", "bar", "my-ns", "e_x", "p1", "ns.2", "q", "Foo", "x1", "Ünï", "abc", "_p"]
 RESERVED_NS = ["http://www.w3.org/XML/1998/namespace", "http://www.w3.org/2000/xmlns/"]
@@ -136,7 +139,7 @@ def gen_value(rng, canon, tamed, knobs):
     t = (lambda n=5: tame(rng, n)) if tamed else (lambda n=5: adv(rng, n, knobs["ws"], knobs["ref"]))
     r = rng.random()
     if canon == "name":
-        return rng.choice(BAD_NAMES) if r < 0.06 else rng.choice(ROOT_NAMES)
+        return rng.choice(BAD_NAMES) if r < 0.06 else rng.choice(PREFIXED_ROOT_NAMES) if r < 0.12 and not tamed else rng.choice(ROOT_NAMES)
     if canon == "omit_instanceID":
         return rng.choice(YES[:6]) if r < 0.3 else rng.choice(NO[:6]) if r < 0.8 else t(2)
     if canon in ("auto_send", "auto_delete"):
@@ -271,6 +274,10 @@ def gen_case(rng, tier_big=False, subset=None):
             r = rng.random()
             if r < 0.2:
                 k = rng.choice(["id", "version", "xmlns", "odk:prefix", "odk:delimiter"])
+            elif r < 0.3 and not tamed:
+                # a namespace declared on the primary instance root itself, and an attribute that uses it
+                k = rng.choice(["xmlns:" + rng.choice(ROOT_DECL_PREFIXES)] * 4 + [rng.choice(ROOT_DECL_PREFIXES) + ":" + rng.choice(ATTR_LOCALS[:6])] * 3
+                               + ["xmlns:xml"])
             elif r < 0.45:
                 k = rng.choice(STD_PREFIXES[:3] + ns_prefixes[:2]) + ":" + rng.choice(ATTR_LOCALS)
             else:
@@ -653,11 +660,21 @@ def xml_problem(case):
     names = [k for k, _ in case["attribute"]] + ["id"]
     names += [n for n, c in (("version", "version"), ("xmlns", "instance_xmlns"), ("odk:prefix", "prefix"),
                              ("odk:delimiter", "delimiter")) if intended.get(c)]
+    root_decl = {k[6:]: v for k, v in case["attribute"] if k.startswith("xmlns:")}
+    for p_, u_ in root_decl.items():
+        if p_ in ("xml", "xmlns"):
+            return f"namespace declaration on the root {p_!r}"
     maybe = None
+    # root element name: a prefixed name needs a declared prefix, and `xmlns:` is for declarations only
+    rname = intended.get("name", case["args"].get("form_name"))
+    if rname and ":" in rname:
+        pfx_ = rname.split(":")[0]
+        if pfx_ == "xmlns" or (pfx_ != "xml" and pfx_ not in STD_PREFIXES and pfx_ not in decl and pfx_ not in root_decl):
+            return f"root element name {rname!r}"
     # a reserved namespace name (xml / xmlns namespaces) must not be declared: rejected by trees that carry
     # C01's reserved-names check, written out by older ones — C01 decides, here only a possible reason
     if any(u in RESERVED_NS for u in decl.values()) or intended.get("instance_xmlns") in RESERVED_NS or any(
-            k == "xmlns" and v in RESERVED_NS for k, v in case["attribute"]):
+            (k == "xmlns" or k.startswith("xmlns:")) and v in RESERVED_NS for k, v in case["attribute"]):
         maybe = "?reserved namespace name"
     for k, v in case["attribute"]:
         collides = any(n != k and local_name(n) == local_name(k) for n in names)
@@ -665,7 +682,8 @@ def xml_problem(case):
         why = None
         if len(parts) > 2 or not all(NCNAME.fullmatch(x) for x in parts):
             why = f"attribute name {k!r}"
-        elif len(parts) == 2 and parts[0] not in ("xml", "xmlns") and parts[0] not in STD_PREFIXES and parts[0] not in decl:
+        elif len(parts) == 2 and parts[0] not in ("xml", "xmlns") and parts[0] not in STD_PREFIXES and parts[0] not in decl \
+                and parts[0] not in root_decl:
             why = f"undeclared prefix in {k!r}"
         elif XML_BAD.search(v) and k not in own:  # an attribute:: column named like an own setting is overwritten
             why = f"character in attribute {k!r}"
@@ -831,10 +849,31 @@ def m_localname(f: Failure) -> bool:
 MATCHERS = {"C11-ws-in-header-value-not-escaped": m_ws, "C11-attribute-same-local-name-evicted": m_localname}
 
 
+def directed_case(row, intended, attribute):
+    return {
+        "channel": "dict", "hdr": [c for c, _ in row], "row": [list(x) for x in row],
+        "intended": [list(x) for x in intended], "attribute": [list(x) for x in attribute], "args": {},
+        "fallback": None, "filename": None, "survey": [{"type": "text", "name": "q1", "label": "Q1"}],
+        "survey_settings": [], "overlay": [], "dup": False, "has_sheet": True, "typed": False, "grid": None,
+    }
+
+
+# one directed input per open finding of this property: every run, whatever the seed, re-observes them
+DIRECTED = [
+    # C11-ws-in-header-value-not-escaped: LF in an attribute value, CR in the title
+    directed_case([["version", "a\nb"], ["form_title", "x\ry"]], [["version", "a\nb"], ["title", "x\ry"]], []),
+    # C11-attribute-same-local-name-evicted: two custom attributes that differ only by a prefix
+    directed_case([["attribute::jr:x", "1"], ["attribute::x", "2"]], [], [["jr:x", "1"], ["x", "2"]]),
+]
+
+
 def explore(ctx, factor, bs):
     rng = ctx.rng
     tmpdir = tempfile.mkdtemp(prefix="c11-")
     try:
+        if factor == 1:
+            for c in DIRECTED:
+                one_case(ctx, copy.deepcopy(c), tmpdir)
         n = ctx.pick(2500, 30000) * factor
         for _ in range(n):
             one_case(ctx, gen_case(rng, tier_big=not ctx.quick()), tmpdir)
